@@ -1,5 +1,7 @@
 import GcArena.Proofs.BrandLemmas
 import GcArena.Generated.BrandTable
+import GcArena.Proofs.BrandFlowLemmas
+import GcArena.Generated.BrandFlow
 /-!
 # C12 — Brand isolation (property theorems; *partial*: rustc's region / trait checking is trusted)
 
@@ -16,6 +18,17 @@ source facts), plus general lemmas about the model of rustc's variance / auto-tr
 (`GcArena.Model.Brand`) that hold for every table.  The step from these premises to "rustc rejects
 every escaping program" is rustc's soundness (trusted) and is cross-validated by the adversarial
 probe corpus of `/verif/probes_brand` (engine `lib/eng_brand.py`).
+
+**Where the sentence of the property itself is stated.**  "No safe program can make a branded value
+outlive its callback, reach a `'static` location, be returned from the callback, or be used with a
+different arena" is a statement about *programs*; the only programs this development has a
+semantics for are those of the brand-flow calculus (`GcArena.Model.BrandFlow`: enter a callback with
+a fresh brand, leave it, call any function safe code can call under any instantiation of its
+lifetime parameters, drop values).  Over those programs the sentence is `no_escape_in_flow_model`
+below – proved in full for that model.  It is **not** a theorem about Rust programs: that every
+safe Rust client is over-approximated by a program of the calculus is what rustc (trusted)
+contributes, see the docstring.  The thread clause ("move it to another thread") has no counterpart
+in the calculus; it rests on `not_send_not_sync` and rustc's auto-trait checking.
 -/
 namespace GcArena.C12
 
@@ -134,18 +147,89 @@ the head is `'static` (or the whole head is bounded by `'static`). -/
 theorem collect_static_only :
     ∀ ci ∈ table.collectImpls, ci.mustBeStatic = true → ci.staticOk = true := by decide
 
-/-- Every lifetime `transmute` in `dynamic_roots.rs` that introduces a lifetime (re-brands a
-`'static` value to `'gc`) is dominated by `if self.contains(<the root being re-branded>)`, or
-produces only a raw pointer that is returned to the caller (unusable without `unsafe`), or sits in
-an `unsafe fn`. -/
+/-- Every re-branding site of `dynamic_roots.rs` — a lifetime `transmute` that introduces a
+lifetime (`Gc<'static, _>` ↦ `Gc<'gc, _>`) — only ever sees a handle that passed the identity check
+of the set handing it out: the site is dominated by `if self.contains(<the handle>)`, or it sits in
+a private `unsafe fn` helper all of whose call sites in the crate (followed up the call graph, by
+parameter position) are so dominated, or it sits in a `pub unsafe fn` (not callable by safe code),
+or its result only exists as a raw pointer returned to the caller.  A safe function must check
+itself.  The rule is structural (`Brand.blame`): it does not depend on the names or the number of
+the functions involved.  Together with `table_classified` (every `unsafe` region of that file is a
+single transmute or helper call) there is no other way the file re-brands anything. -/
 theorem transmutes_guarded :
-    ∀ t ∈ table.transmutesIn "dynamic_roots.rs", t.ok = true := by decide
+    ∀ t ∈ table.transmutesIn "dynamic_roots.rs", table.transmuteOk t = true := by decide
 
 /-- `Write<T>` is a transparent wrapper around `T` (one field of type `T`, no lifetime parameter,
 no explicit auto-trait impl): a `&'gc Write<T>` carries exactly the brands of `&'gc T`. -/
 theorem write_transparent : table.writeTransparent = true := by decide
 
+/-! ## The escape clause, over the programs of the flow model -/
+
+/-- **No escape in the flow model.**  For the brand-flow table regenerated from the current source
+(`GcArena.Generated.brandFlow`: every function code without `unsafe` can call whose result carries a
+lifetime, with the brands of result and inputs) and every program of the calculus of
+`Model/BrandFlow.lean` – any interleaving of: a generative entry point calls the client's callback
+with a brand never used before; the innermost callback returns; the program calls any table entry
+under any instantiation of its lifetime parameters for which it holds the branded inputs; the
+program drops values – in every state `st` the program can reach:
+
+1. **outlive / `'static` location.**  Every branded value the program holds has the brand of a
+   callback that is executing *now*, and a brand some callback introduced: it holds nothing whose
+   brand is `'static` or an outer region, and nothing of a callback that has returned.
+2. **return from the callback.**  If the innermost callback (brand `b`) returns now, then in *every*
+   state the program can reach afterwards nothing of brand `b` is held and `b` is never active
+   again.
+3. **different arena.**  Every call the program can make now involves exactly one brand – all
+   branded inputs and all branded results share it – and it is the brand of an executing callback:
+   a pointer of arena A is never combined with the `Mutation` or the root set of arena B, and no
+   call turns a value of A into a value of B.
+
+What is proved: the statement above, in full, for the model.  What is **not** proved here and is
+contributed by rustc (trusted; cross-validated by the escape / cross-arena probes):
+
+* that the calculus over-approximates safe Rust clients: rustc type-checks every call against the
+  extracted signature with *one* instantiation per lifetime parameter and, the branded types being
+  invariant (`branded_invariant`), cannot change a brand by subtyping;
+* the `exit` rule of the calculus – when a `for<'gc>` callback returns, no value whose type
+  mentions `'gc` survives it: the result type cannot mention the brand (`callbacks_higher_ranked`,
+  `callback_result_brand_free`), captured state cannot name it (rustc's higher-ranked region
+  check), and a `'static` location cannot hold it (`binder_closed`);
+* the translator's classification of lifetime positions in `Generated/BrandFlow.lean`.
+
+The thread clause of C12 is not expressible in the calculus (see `not_send_not_sync`). -/
+theorem no_escape_in_flow_model {st : GcArena.BrandFlow.State}
+    (hr : GcArena.BrandFlow.Reachable GcArena.Generated.brandFlow st) :
+    (∀ b ∈ st.held, b ∈ st.active ∧ b ∈ st.opened) ∧
+    (∀ (b : Nat) (rest : List Nat), st.active = b :: rest →
+      ∀ st', GcArena.BrandFlow.Steps GcArena.Generated.brandFlow
+          { st with active := rest, held := st.held.filter (· != b) } st' →
+        b ∉ st'.held ∧ b ∉ st'.active) ∧
+    (∀ (s : GcArena.BrandFlow.Sig) (σ : String → Nat), s ∈ GcArena.Generated.brandFlow.sigs →
+      s.callable = true → (∀ l ∈ s.inBrands, σ l ∈ st.held) →
+      ∀ b ∈ s.brands.map σ, b ∈ st.active ∧ ∀ b' ∈ s.brands.map σ, b' = b) :=
+  GcArena.BrandFlow.no_escape_of_table_ok (by decide) hr
+
 /-! ## Non-vacuity -/
+
+/-- The flow model is not empty, and the escape clause can fail: with one entry whose result brand
+is not the brand of an input (the seeded `unsize!` change, `GcWeak<'gc, T>` ↦ `GcWeak<'w, U>`), the
+calculus reaches a state in which the program holds brand 0 – never introduced by any callback –
+after the only callback has returned. -/
+example :
+    let sg : GcArena.BrandFlow.Sig :=
+      { name := "__coerce_unchecked", isUnsafe := true, macroReachable := true,
+        outBrands := ["w"], inBrands := ["gc"] }
+    let T : GcArena.BrandFlow.Table := { sigs := [sg] }
+    ∃ st, GcArena.BrandFlow.Reachable T st ∧ 0 ∈ st.held ∧ 0 ∉ st.opened ∧ st.active = [] := by
+  intro sg T
+  have h1 : GcArena.BrandFlow.Reachable T { opened := [1], active := [1], held := [1] } :=
+    .step .init (.enter GcArena.BrandFlow.State.init 1 (by simp [GcArena.BrandFlow.State.init]))
+  have h2 : GcArena.BrandFlow.Reachable T { opened := [1], active := [1], held := [0, 1] } :=
+    .step h1 (.call _ sg (fun l => if l = "gc" then 1 else 0) (List.mem_singleton.mpr rfl)
+      (by decide) (by decide))
+  have h3 : GcArena.BrandFlow.Reachable T { opened := [1], active := [], held := [0] } :=
+    .step h2 (.exit _ 1 [] rfl)
+  exact ⟨_, h3, by decide, by decide, rfl⟩
 
 /-- The variance check can fail: the covariant look-alike marker is not invariant. -/
 example : varTy (adtVarOracle table fuel) (.lt "a") .co
@@ -199,11 +283,32 @@ example : Callback.ok
 example : ((table.collectImpls.filter (·.mustBeStatic)).map (·.selfTy.head)) =
     ["&", "Cell", "RefCell", "Static"] := by decide
 
-/-- Two re-branding transmutes (`fetch`, `try_fetch`) exist and are the guarded ones; `as_ptr`
-is the raw-pointer one. -/
-example : (((table.transmutesIn "dynamic_roots.rs").filter
-      (fun t => !t.introduces.isEmpty)).map (fun t => (t.fn_, t.guardedByContains, t.rawOnly))) =
-    [("DynamicRootSet::fetch", true, false), ("DynamicRootSet::try_fetch", true, false),
-     ("DynamicRoot::as_ptr", false, true)] := by decide
+/-- Re-branding sites that need a cover exist, all are covered, and the identity check is really
+applied somewhere (at a site or at the call of a helper); independent of function names. -/
+example : 1 ≤ table.rebrandSites.length ∧ 1 ≤ table.identityChecks ∧
+    table.rebrandSites.all table.transmuteOk = true := by decide
+
+/-- The lifting can fail.  A private `unsafe fn rebrand(root)` holding the transmute is covered
+when both callers check `self.contains(root)` first, and is *not* covered – blaming the caller – as
+soon as one safe caller does not, or checks a different handle, or the helper is only mentioned. -/
+example :
+    let t : Transmute :=
+      { file := "dynamic_roots.rs", fn_ := "DynamicRootSet::rebrand", fnUnsafe := true, fnPub := false,
+        src := some (.adt "Gc" [.static] []), dst := some (.adt "Gc" [.named "gc"] []),
+        guards := [], castToRaw := false, operand := "root.ptr", operandBase := "root",
+        fnRet := .adt "Gc" [.named "gc"] [], fnLast := "rebrand", fnParams := ["root"] }
+    let site (caller arg : String) (gs : List Guard) (called : Bool) : CallSite :=
+      { file := "dynamic_roots.rs", caller := caller, callerLast := caller, callerUnsafe := false,
+        callerPub := true, callerParams := ["self", "root", "other"], callee := "rebrand",
+        calleePath := "Self::rebrand", args := [arg], argBases := [arg], guards := gs, isCall := called }
+    let chk : List Guard := [{ cond := "self.contains(root)", thenBranch := true }]
+    let tbl (cs : List CallSite) : Table := { table with transmutes := [t], callSites := cs }
+    (tbl [site "fetch" "root" chk true, site "try_fetch" "root" chk true]).transmuteOk t = true ∧
+    (tbl [site "fetch" "root" chk true, site "peek" "root" [] true]).blameOf t = ["peek"] ∧
+    (tbl [site "fetch" "other" chk true]).blameOf t = ["fetch"] ∧
+    (tbl [site "fetch" "root" [{ cond := "self.contains(root)", thenBranch := false }] true]).transmuteOk t = false ∧
+    (tbl [site "fetch" "root" chk false]).transmuteOk t = false ∧
+    ({ table with transmutes := [{ t with fnUnsafe := false }], callSites := [] } : Table).blameOf
+        { t with fnUnsafe := false } = ["DynamicRootSet::rebrand"] := by decide
 
 end GcArena.C12
